@@ -1,4 +1,4 @@
-SPECIFICATION Spec
+SPECIFICATION TSpec
 CONSTANTS
   Vers = {"sasl", "sasl2"}
   Mechs = {"PLAIN", "DIGEST-MD5", "ANONYMOUS", "X-UNKNOWN"}
@@ -8,9 +8,7 @@ CONSTANTS
   Froms = {"absent", "own", "ownBare", "victim", "other"}
   Tos = {"victimBare", "victimFull", "domain", "absent"}
   Stanzas <- AllStanzas
-  MaxPending = 2
+  MaxPending = 99
   MaxHist = 99
-INVARIANTS TypeOK BindOnlyAuthed AuthedOnlyApproved ApprovedSound NeverTheVictim RoutesOwn
-PROPERTIES IdentityByApproval AnswersOnlyAuthed RoutedStamped
-VIEW View
+INVARIANT Done
 CHECK_DEADLOCK FALSE
